@@ -17,49 +17,6 @@ def _poly(b, x0):
     return f
 
 
-@reg('C01.poly')
-def poly(case):
-    import numdifftools as nd
-    import numdifftools.finite_difference as fd
-    bad = []
-    with warnings.catch_warnings():
-        warnings.simplefilter('ignore')
-        cfgs = [(case['method'], case['n'], case['order'])]
-        cfgs += [('central', 1, 2), ('central', 2, 2), ('forward', 1, 2), ('backward', 2, 1), ('complex', 1, 2), ('complex', 3, 4), ('multicomplex', 2, 2),
-                 ('central', 3, 4), ('forward', 4, 2)]
-        for (method, n, order) in cfgs:
-            for cplxf in sorted({bool(case.get('complex_f')), False}):
-                if cplxf and method in ('complex', 'multicomplex'):
-                    continue
-                for x0 in (0.3, np.array([0.3, -1.2, 2.0])):
-                    if n == 0:
-                        D = 3; mo = rs = 1
-                    else:
-                        rule = fd.LogRule(n=n, method=method, order=order)
-                        mo, rs = rule.method_order, rule.richardson_step
-                        D = n + mo + rs * case.get('terms', 2) - 1
-                    b = [((-1) ** k) * (0.7 + 0.35 * k) + (1j * (0.3 - 0.2 * k) if cplxf else 0) for k in range(D + 1)]
-                    xs = np.atleast_1d(x0)
-                    try:
-                        out = []
-                        for xx in xs:          # one expansion point per element
-                            f = _poly(b, xx)
-                            d = nd.Derivative(f, method=method, n=n, order=order, richardson_terms=case.get('terms', 2), full_output=True)
-                            v, info = d(xx)
-                            out.append((v, info))
-                    except Exception as e:
-                        bad.append(dict(method=method, n=n, order=order, complex_f=cplxf, raised=repr(e)[:120]))
-                        continue
-                    for (v, info), xx in zip(out, xs):
-                        want = b[n]
-                        scale = max(1.0, max(abs(t) for t in b))
-                        tol = 1e-6 * scale * (1.0 if n <= 2 else 10.0 ** (n - 2))
-                        if not abs(v - want) <= tol:
-                            bad.append(dict(method=method, n=n, order=order, complex_f=cplxf, x=float(xx), got=complex(v) if cplxf else float(v),
-                                            expected=complex(want) if cplxf else float(want)))
-                        elif not (np.all(np.isreal(info.error_estimate)) and np.all(np.real(info.error_estimate) >= 0)):
-                            bad.append(dict(method=method, n=n, order=order, problem='error estimate not real / negative', err=str(info.error_estimate)))
-    return dict(reproduced=bool(bad), failing=bad[:4], statement='Derivative of a polynomial of the degree the pipeline is exact for must equal its n-th derivative')
 
 
 @reg('C02.record')
